@@ -372,12 +372,12 @@ impl<'a, T: RealNumber, M: Matrix<T>, K: Kernel<T, M::RowVector>> Optimizer<'a, 
             #[cfg(smartcore_verif)]
             crate::verif::tick("svr-smo", || {
                 crate::verif::digest_words(self.sv.iter().flat_map(|v| {
-                    vec![
+                    IntoIterator::into_iter([
                         crate::verif::bits(v.alpha[0]),
                         crate::verif::bits(v.alpha[1]),
                         crate::verif::bits(v.grad[0]),
                         crate::verif::bits(v.grad[1]),
-                    ]
+                    ])
                 }))
             });
             let v1 = self.svmax;
